@@ -52,7 +52,7 @@ class _Subst(ast.NodeTransformer):
 
     def visit_Name(self, n):
         if isinstance(n.ctx, ast.Load) and n.id in self.env and \
-                n.id not in self.bound:
+                n.id not in self.bound and n.id != '<records>':
             v = self.env[n.id]
             if v is not None:
                 return _copy(v)
@@ -82,12 +82,39 @@ def subst(e, env):
     if e is None:
         return None
     out = _Subst(env).visit(_copy(e))
-    # a[i] of a tuple / list display, d['k'] of a dict display
-    out = _Proj().visit(out)
+    # a[i] of a tuple / list display, d['k'] of a dict display, r.f of a
+    # record construction
+    out = _Proj(env.get('<records>') or {}).visit(out)
     return out
 
 
+def _record_field(call, fields, name):
+    """The argument a record construction binds to a field."""
+    if any(isinstance(a, ast.Starred) for a in call.args) or any(
+            k.arg is None for k in call.keywords):
+        return None
+    for k in call.keywords:
+        if k.arg == name:
+            return k.value
+    if name in fields and fields.index(name) < len(call.args):
+        return call.args[fields.index(name)]
+    return None
+
+
 class _Proj(ast.NodeTransformer):
+    def __init__(self, records=None):
+        self.records = records or {}
+
+    def visit_Attribute(self, n):
+        self.generic_visit(n)
+        v = n.value
+        if isinstance(v, ast.Call) and isinstance(v.func, ast.Name) and \
+                v.func.id in self.records and isinstance(n.ctx, ast.Load):
+            a = _record_field(v, self.records[v.func.id], n.attr)
+            if a is not None:
+                return a
+        return n
+
     def visit_Subscript(self, n):
         self.generic_visit(n)
         if isinstance(n.slice, ast.Constant):
@@ -102,6 +129,13 @@ class _Proj(ast.NodeTransformer):
                 for kk, vv in zip(v.keys, v.values):
                     if kk.value == k:
                         return vv
+            if isinstance(v, ast.Call) and isinstance(v.func, ast.Name) \
+                    and v.func.id in self.records and isinstance(k, int):
+                fl = self.records[v.func.id]
+                if 0 <= k < len(fl):
+                    a = _record_field(v, fl, fl[k])
+                    if a is not None:
+                        return a
         return n
 
 
@@ -243,8 +277,10 @@ class Walker(object):
         self.keep = keep
         self.exits = []
 
-    def run(self):
+    def run(self, env=None):
         p = Path()
+        if env:
+            p.env = dict(env)
         live = self.block(self.fnode.body, [p])
         return self.done + live
 
@@ -452,6 +488,103 @@ class Walker(object):
 _cache = {}
 
 
+def _nt_fields(value):
+    if not (isinstance(value, ast.Call) and src(value.func) in (
+            'collections.namedtuple', 'namedtuple') and len(value.args) == 2):
+        return None
+    f = value.args[1]
+    if isinstance(f, ast.Constant) and isinstance(f.value, str):
+        return f.value.replace(',', ' ').split()
+    if isinstance(f, (ast.List, ast.Tuple)) and all(
+            isinstance(x, ast.Constant) and isinstance(x.value, str)
+            for x in f.elts):
+        return [x.value for x in f.elts]
+    return None
+
+
+def module_env(tree):
+    """Record (namedtuple) classes of a module and the module-level names
+    bound once to a construction of one of them."""
+    records, env, count = {}, {}, {}
+    for st in tree.body:
+        if isinstance(st, ast.Assign):
+            for t in st.targets:
+                if isinstance(t, ast.Name):
+                    count[t.id] = count.get(t.id, 0) + 1
+    for st in tree.body:
+        if isinstance(st, ast.Assign) and len(st.targets) == 1 and \
+                isinstance(st.targets[0], ast.Name) and count[
+                    st.targets[0].id] == 1:
+            fl = _nt_fields(st.value)
+            if fl:
+                records[st.targets[0].id] = fl
+    for st in tree.body:
+        if isinstance(st, ast.Assign) and len(st.targets) == 1 and \
+                isinstance(st.targets[0], ast.Name) and count[
+                    st.targets[0].id] == 1 and isinstance(
+                        st.value, ast.Call) and isinstance(
+                            st.value.func, ast.Name) and \
+                st.value.func.id in records:
+            env[st.targets[0].id] = st.value
+    env['<records>'] = records
+    return env
+
+
 def paths_of(f, keep=None):
     """All paths through a model function."""
-    return Walker(f.node, keep).run()
+    fn = f.node
+    shadow = set()
+    for n in ast.walk(fn):
+        if isinstance(n, ast.Name) and isinstance(n.ctx, ast.Store):
+            shadow.add(n.id)
+        elif isinstance(n, ast.arg):
+            shadow.add(n.arg)
+    env = {k: v for k, v in module_env(f.module.tree).items()
+           if k not in shadow}
+    return Walker(fn, keep).run(env)
+
+
+# ---------------------------------------------------------------- implication
+_COMPL = {ast.IsNot: ast.Is, ast.NotIn: ast.In, ast.NotEq: ast.Eq}
+
+
+def _atom(e, pol):
+    if isinstance(e, ast.Compare) and len(e.ops) == 1 and type(
+            e.ops[0]) in _COMPL:
+        e2 = ast.Compare(left=e.left, ops=[_COMPL[type(e.ops[0])]()],
+                         comparators=e.comparators)
+        return (e2, not pol)
+    return (e, pol)
+
+
+def dnf(e, pol, limit=64):
+    """Disjunctive normal form of a branch decision: a list of conjunctions,
+    each a list of (atom, polarity); negative comparison operators are
+    written as their positive twin with the polarity flipped."""
+    if isinstance(e, ast.UnaryOp) and isinstance(e.op, ast.Not):
+        return dnf(e.operand, not pol, limit)
+    if isinstance(e, ast.BoolOp):
+        parts = [dnf(v, pol, limit) for v in e.values]
+        conj = isinstance(e.op, ast.And) == pol
+        if not conj:
+            out = []
+            for p in parts:
+                out.extend(p)
+            return out[:limit * 4]
+        out = [[]]
+        for p in parts:
+            out = [a + b for a in out for b in p]
+            if len(out) > limit * 4:
+                return [[(e, pol)]]
+        return out
+    return [[_atom(e, pol)]]
+
+
+def holds(path, pred):
+    """Some decision taken on the path guarantees that a literal accepted
+    by pred(atom, polarity) is true (whichever disjunct was the reason)."""
+    for _n, pol, t in path.conds:
+        d = dnf(t, pol)
+        if d and all(any(pred(a, ap) for a, ap in c) for c in d):
+            return True
+    return False
